@@ -64,7 +64,7 @@ CONSUMERS = ['next', 'next', 'next', 'islice', 'head', 'look', 'lookstr',
 def budget(tier):
     if tier == 'quick':
         return {'cases': 12000, 'wall_cap_s': 240}
-    return {'cases': 200000, 'wall_cap_s': 1500}
+    return {'cases': 400000, 'wall_cap_s': 1500}
 
 
 def _fix(c):
